@@ -118,6 +118,24 @@ func c12RoundTrip[T cborMarshaler](env *SymEnv, pfx string, v T, fresh func() (c
 			}
 			keys, vals = append(keys, k), append(vals, v)
 		}
+		// each field in turn REMOVED (a map that lacks the key leaves the DTO's field at its zero value,
+		// a nil pointer for pointer fields), and the empty map: never a panic
+		for i := range keys {
+			mut := []byte{byte(0xa0 + len(keys) - 1)}
+			for j := range keys {
+				if j != i {
+					mut = append(append(mut, keys[j]...), vals[j]...)
+				}
+			}
+			t, _ := fresh()
+			if c12DecodeBytes(env, fmt.Sprintf("%s/field %d removed", pfx, i), mut, t) {
+				env.Reach(pfx + "/a missing field is accepted (optional field)")
+			}
+		}
+		{
+			t, _ := fresh()
+			env.Check(pfx+"/malformed container refused: empty map", !c12DecodeBytes(env, pfx+"/empty map", []byte{0xa0}, t), "accepted")
+		}
 		for i := range keys {
 			for _, nul := range []byte{0xf6, 0xf7} {
 				mut := []byte{b1[0]}
@@ -318,6 +336,9 @@ func c12Shares(env *SymEnv) {
 			w0, _ := pedcom.NewWitness(a)
 			c12MustReject(env, "C12.pedersen.Share/ID 0 refused", pedersenShareDTO{0, []*pedcom.Message[sF]{m0}, []*pedcom.Witness[sF]{w0}}, &pedersen.Share[sF]{})
 			c12MustReject(env, "C12.pedersen.Share/secret and blinding of different length refused", pedersenShareDTO{6, []*pedcom.Message[sF]{m0, m1}, []*pedcom.Witness[sF]{w0}}, &pedersen.Share[sF]{})
+			w1, _ := pedcom.NewWitness(b)
+			c12MustReject(env, "C12.pedersen.Share/blinding longer than secret refused", pedersenShareDTO{6, []*pedcom.Message[sF]{m0}, []*pedcom.Witness[sF]{w0, w1}}, &pedersen.Share[sF]{})
+			c12MustReject(env, "C12.pedersen.Share/blinding with a trailing nil refused", pedersenShareDTO{6, []*pedcom.Message[sF]{m0}, []*pedcom.Witness[sF]{w0, nil}}, &pedersen.Share[sF]{})
 			c12MustReject(env, "C12.pedersen.Share/empty refused", pedersenShareDTO{6, nil, nil}, &pedersen.Share[sF]{})
 			c12MustReject(env, "C12.pedersen.Share/nil component refused", pedersenShareDTO{6, []*pedcom.Message[sF]{nil}, []*pedcom.Witness[sF]{w0}}, &pedersen.Share[sF]{})
 		}
@@ -458,7 +479,24 @@ func c12KeyMaterial(env *SymEnv, pol Policy) {
 	c12RoundTrip(env, "C12.mpc.BasePublicMaterial", pm, func() (cborUnmarshaler, func() *mpc.BasePublicMaterial[sG, sF]) {
 		t := &mpc.BasePublicMaterial[sG, sF]{}
 		return t, func() *mpc.BasePublicMaterial[sG, sF] { return t }
-	}, func(x, y *mpc.BasePublicMaterial[sG, sF]) bool { return x.Equal(y) })
+	}, func(x, y *mpc.BasePublicMaterial[sG, sF]) bool {
+		// Equal looks at the MSP and the verification vector only: the derived data users read
+		// (joint public key, per-party public key shares) is compared as well
+		if !x.Equal(y) || !x.PublicKeyValue().Equal(y.PublicKeyValue()) {
+			return false
+		}
+		xs, ys := x.PublicKeyShares(), y.PublicKeyShares()
+		if xs == nil || ys == nil || xs.Size() != ys.Size() {
+			return false
+		}
+		for id, a := range xs.Iter() {
+			b, ok := ys.Get(id)
+			if !ok || !a.Equal(b) {
+				return false
+			}
+		}
+		return true
+	})
 	for _, n := range []int{D - 1, D + 1} {
 		if n < 1 {
 			continue
